@@ -26,7 +26,7 @@ pub struct C06Out {
 
 pub fn acct_step(w: &World, out: &mut C06Out) -> R<()> {
     let pins = w.pins();
-    match account(w.db(), &pins) {
+    match crate::own::account_opts(w.db(), &pins, w.leak_latched) {
         Ok(a) => {
             out.accountings += 1;
             out.max_alloc = out.max_alloc.max(a.allocated);
@@ -94,6 +94,7 @@ pub fn one_case(seed: u64, case: u64, trace_on: bool, churn: bool) -> (C06Out, O
         cow_evals: 0,
     };
     let mut opts = Opts::default();
+    opts.panics = true;
     if churn {
         opts.keyspace = 32;
         opts.kinds = vec![crate::model::Kind::A, crate::model::Kind::D];
@@ -124,6 +125,7 @@ pub fn one_case(seed: u64, case: u64, trace_on: bool, churn: bool) -> (C06Out, O
                 22..=23 if !churn => w.reopen()?,
                 24..=25 if !churn => w.check_integrity()?,
                 26..=27 if !churn => w.compact()?,
+                28 if !churn => w.panic_txn()?,
                 _ => {
                     let plan = w.plan();
                     w.run_txn(&plan)?;
